@@ -410,9 +410,11 @@ def rule_G(ctx):
     EN = absint.classref(ctx, 'tracklib.core.obs_coords.ENUCoords', fn)
     fn['sqrt'], fn['hypot'], fn['atan2'] = math.sqrt, math.hypot, math.atan2
 
-    def O(k, x, y):
-        # the repository's own Obs over its own ENUCoords, tagged with its rank in the input
-        return absint.real_obs(ctx, fn, EN(float(x), float(y), 0.0), None, k=k)
+    OT = absint.classref(ctx, 'tracklib.core.obs_time.ObsTime', fn)
+
+    def O(k, x, y, sec=None):
+        # the repository's own Obs over its own ENUCoords, tagged with its rank in the input (and, for some tracks, its own timestamp)
+        return absint.real_obs(ctx, fn, EN(float(x), float(y), 0.0), None if sec is None else OT(2020, 5, 17, 10, sec // 60, sec % 60, 0), k=k)
 
     def seg_dist(p, a, b):
         (px, py), (ax, ay), (bx, by) = p, a, b
@@ -439,6 +441,9 @@ def rule_G(ctx):
         'a straight run on heading (3, 1) from (0.1, 0.7), then a turn': [(0.1 + 3 * k, 0.7 + k) for k in range(5)] + [(13.1, 9.7)],
         'five collinear fixes on heading (0.3, 0.7)': [(0.1 + 0.3 * k, 0.2 + 0.7 * k) for k in range(5)],
     }
+    # timestamps: none (all equal, as above), increasing along the track, decreasing along it (a reversed track, a log stored newest first)
+    TIMED = {'generic open line, timestamps increasing': ('generic open line', lambda k, n: 7 * k), 'generic open line, timestamps decreasing (a reversed track)': ('generic open line', lambda k, n: 7 * (n - k)),
+             'spike, timestamps decreasing (a reversed track)': ('spike', lambda k, n: 100 - 9 * k)}
     eps_list = (0.00001, 0.25, 2.0, 6.0, 11.0, 25.0, 1.0e6)
     found = {}
     n_cases = 0
@@ -453,11 +458,12 @@ def rule_G(ctx):
         entries.append(('visvalingam', fv, lambda t_, e_: sim(t_, e_, modes['MODE_SIMPLIFY_VISVALINGAM'])))
         entries.append(('douglas_peucker', fd, lambda t_, e_: sim(t_, e_)))
     for entry_no, (algo, f, run) in enumerate(entries):
-        for sname, pts in shapes.items():
+        for sname, pts in list(shapes.items()) + [(nm_, shapes[base_]) for nm_, (base_, _) in TIMED.items()]:
+            clock = TIMED[sname][1] if sname in TIMED else None
             if entry_no >= 2:
                 sname = sname + ' [through simplify()]'
             for eps in eps_list:
-                t = T([O(k, *p_) for k, p_ in enumerate(pts)], 'u', 't')
+                t = T([O(k, *p_, sec=(clock(k, len(pts)) if clock else None)) for k, p_ in enumerate(pts)], 'u', 't')
                 n_cases += 1
                 case = {'algorithm': algo, 'track': sname, 'positions': [list(p_) for p_ in pts], 'tolerance': eps}
                 try:
